@@ -155,6 +155,32 @@ def source_oracle(doc, out_bytes, cwd):
     return True, ""
 
 
+def source_oracle_pairs(pairs, out_bytes, cwd):
+    """like source_oracle, for an explicit list of (name, text) the output must define"""
+    exp = {}
+    for nm, v in pairs:
+        exp[nm] = v
+    with open(os.path.join(cwd, "out.sh"), "wb") as f:
+        f.write(out_bytes)
+    names = list(exp.keys())
+    script = ". ./out.sh || exit 97\n" + "".join("printf '%%s\\0' \"$%s\"\n" % nm for nm in names)
+    try:
+        p = subprocess.run(["/bin/sh", "-c", script], cwd=cwd, stdout=subprocess.PIPE, stderr=subprocess.PIPE, timeout=10,
+                           env={"PATH": "/usr/bin:/bin", "HOME": "/verif-home"})
+    except subprocess.TimeoutExpired:
+        return False, "timeout"
+    if os.path.exists(os.path.join(cwd, "PWNED")):
+        os.remove(os.path.join(cwd, "PWNED"))
+        return False, "canary: a command was executed while sourcing"
+    if p.returncode != 0:
+        return False, "sourcing failed rc=%d %s" % (p.returncode, p.stderr[:200])
+    got = p.stdout.split(b"\0")[:-1]
+    want = [exp[n].encode() for n in names]
+    if got != want:
+        return False, "variables differ: got %r want %r" % (got[:5], want[:5])
+    return True, ""
+
+
 def _name_ok(nm):
     return bool(nm) and (nm[0].isalpha() or nm[0] == "_") and nm.isascii() and all(c.isalnum() or c == "_" for c in nm)
 
@@ -175,6 +201,12 @@ def replay(rp):
             if "out_b64" not in r or r.get("err"):
                 return False
             ok, _, _ = oracle_sh(s, vlib.b64d(r["out_b64"]), cwd)
+            return ok
+        if rp.get("kind") == "shellvars_yaml":
+            r = vlib.yqh_batch([{"op": "eval", "expr": ".", "input": rp["yaml"], "in": "yaml", "out": "shell"}])[0]
+            if "out_b64" not in r or r.get("err"):
+                return True
+            ok, _ = source_oracle_pairs([tuple(x) for x in rp["want"]], vlib.b64d(r["out_b64"]), cwd)
             return ok
         if rp.get("kind") == "shellvars":
             doc = rp["doc"]
@@ -289,6 +321,29 @@ def run(chk):
             if not ok:
                 chk.violation({"kind": "shellvars", "doc": d, "impl_out": out.decode("utf-8", "replace"), "why": why}, True,
                               "sourcing the -o=shell output does not define the expected variables: " + why)
+        # ---- -o=shell on YAML input: non-string scalars (null ~, ints, floats, bools) and explicitly tagged text
+        #      must be quoted by the same rule as strings (the encoder looks at the text only)
+        ytexts = ["~", "null", "1", "-5", "1.5", "true", "no", "0x1F", "1e3", ".inf", "2001-01-01"]
+        ycases = []
+        for t in ytexts:
+            ycases.append(("a: %s\n" % t, [("a", t)]))
+        for tag in ("!!int", "!!float", "!!bool", "!!null", "!!str", "!custom"):
+            for pay in ("$(touch PWNED)", "1 touch PWNED", "`touch PWNED`", "~", "a b", "*", "x;touch PWNED"):
+                ycases.append(("a: %s %s\nb: ok\n" % (tag, json.dumps(pay)), [("a", pay), ("b", "ok")]))
+        ycases.append(("- ~\n- 1\n- {k: ~}\n", [("_0", "~"), ("_1", "1"), ("_2_k", "~")]))
+        yresp = vlib.yqh_parallel([{"op": "eval", "expr": ".", "input": y, "in": "yaml", "out": "shell"} for y, _ in ycases])
+        for (y, want), r in zip(ycases, yresp):
+            chk.count(("svyaml", y), nontrivial=True)
+            if r is None or "out_b64" not in r or r.get("err") or r.get("panic"):
+                continue       # a document the encoder rejects is not an injection
+            out = vlib.b64d(r["out_b64"])
+            sv_cases.append(("SvMap [%s]" % ";".join("(%s, SvScalar %s)" % (vlib.coq_str(k), vlib.coq_str(v)) for k, v in want)
+                             if not y.startswith("-") else "SvSeq [SvScalar %s; SvScalar %s; SvMap [(%s, SvScalar %s)]]" % (vlib.coq_str("~"), vlib.coq_str("1"), vlib.coq_str("k"), vlib.coq_str("~")), out))
+            sv_docs.append((y, out))
+            okk, why = source_oracle_pairs(want, out, cwd)
+            if not okk:
+                chk.violation({"kind": "shellvars_yaml", "yaml": y, "impl_out": out.decode("utf-8", "replace"), "why": why, "want": want}, True,
+                              "sourcing the -o=shell output of a YAML document does not define the expected variables: " + why)
         mism, err = vlib.coq_mismatches(chk.workdir, "sv_cases", IMPORTS, "sv_output (fun k => k)", sv_cases)
         if err:
             broken.append("model evaluation failed (shellvars): " + err[-500:])
